@@ -1,5 +1,6 @@
 /- line-protocol driver for C04 (binary / ternary quantizers on tensors) -/
 import QKV.Drv.GrpJson
+import QKV.Model.BinTerSR
 open Lean QKV QKV.Drv QKV.Tn QKV.BT
 
 def eltsJson (c : Fl) (xste : List Rat) (es : List Elt) : Json :=
@@ -218,6 +219,39 @@ def handle (j : Json) : Except String Json := do
     | .error e => pure (errJson e)
     | .ok spec =>
       pure <| Json.mkObj [("axes", Json.arr ((scalingAxis cl spec len).map fun (n : Nat) => Json.num (n : Int)).toArray)]
+  | "bin_sr" =>
+    -- binary with the option `use_stochastic_rounding` (`usr` = its truth value) under a learning phase
+    -- (Model/BinTerSR.lean).  Inference (or option off): `binarySR` in the four contexts, as op "binary".
+    -- Training with the option: the outputs are random; per element the normaliser `f` and the codes the
+    -- model admits (every floor / ceil draw x every fill draw, float32 context).
+    let cfg ← j.getObjVal? "cfg"
+    let g : Grp := { chLast := ← getBool cfg "ch_last", sa := ← getAxis cfg "sa", eps := ← getEps cfg "eps" }
+    let bc : BinCfg := { use01 := ← getBool cfg "use01", alpha := ← alphaOfJson (← cfg.getObjVal? "alpha"),
+                         grp := g, minE := ← getOptInt cfg "min_e", maxE := ← getOptInt cfg "max_e" }
+    let usr ← getBool j "usr"
+    let training ← getBool j "training"
+    let shape ← getNatList j "shape"
+    let x ← getRatList j "x"
+    let eps ← getRat j "eps32"
+    if usr && training then
+      let c := Fl.f32 eps
+      let f := srNorm (maxKeys (terMaxAxes g.chLast shape.length) shape) x
+      pure <| Json.mkObj [("f", rats f),
+        ("adm", Json.arr ((f.zip x).map fun p => rats (srAdmissible c bc.use01 p.1 p.2)).toArray)]
+    else
+      let xste ← getRatList j "xste"
+      let ph : Phase := if training then .training else .inference
+      pure (four eps xste fun c => binarySR c bc usr ph { up := [], u := [] } shape x)
+  | "ter_sr" =>
+    let cfg ← j.getObjVal? "cfg"
+    let tc : TerCfg := { alpha := ← alphaOfJson (← cfg.getObjVal? "alpha"), thres := ← getRat cfg "thres",
+                         chLast := ← getBool cfg "ch_last", unrolls := ← getNat cfg "unrolls" }
+    let usr ← getBool j "usr"
+    let shape ← getNatList j "shape"
+    let x ← getRatList j "x"
+    let xste ← getRatList j "xste"
+    let eps ← getRat j "eps32"
+    pure (four eps xste fun c => ternarySRInf c tc usr shape x)
   | _ => throw s!"unknown op {op}"
 
 def main : IO Unit := lineLoop handle
